@@ -1,7 +1,8 @@
 (* C18 - module paths resolve as documented, consistently across features.
    Only statements closed by `exact` + Print Assumptions live here. *)
 From Coq Require Import List NArith Bool.
-From LH Require Import Base.Bytes Model.FileIndex Model.ModulePath Spec.ModuleSpec Proofs.FileIndexProofs.
+From LH Require Import Base.Bytes Model.FileIndex Model.ModulePath Spec.ModuleSpec Proofs.FileIndexProofs
+  Proofs.ModulePathDet.
 Import ListNotations.
 Local Open Scope N_scope.
 
@@ -88,7 +89,7 @@ Print Assumptions C18_type6_iff.
 Definition C18_features_agree_full : Prop :=
   forall disk cfg st files cur m, index_ok st files ->
     let out := check_refer disk cfg st cur KRequire m in
-    let oo := open_outcomes st (fun f => fmem f files) cur (open_list true false m) in
+    let oo := open_outcomes cfg st (fun f => fmem f files) cur (open_list true false m) in
     (forall f, In f (r_resolved out) <-> exists it, In (Some (it, f)) oo) /\
     (r_resolved out = [] <-> In None oo).
 
@@ -100,7 +101,7 @@ Theorem C18_features_agree : forall disk cfg st files cur m,
   disk (complete_path (main_dir cfg) (doc_so m)) = false ->
   unique_match (doc_lua m) files -> unique_match (doc_init m) files ->
   let out := check_refer disk cfg st cur KRequire m in
-  let oo := open_outcomes st (fun f => fmem f files) cur (open_list true false m) in
+  let oo := open_outcomes cfg st (fun f => fmem f files) cur (open_list true false m) in
   (r_resolved out = [] /\ oo = [None]) \/
   (exists it c, r_resolved out = [c] /\ oo = [Some (it, c)] /\ path_suffix it c = true /\
                 (it = doc_lua m \/ it = doc_init m)).
@@ -124,7 +125,7 @@ Proof. exact reacts_unfixed. Qed.
 Print Assumptions C18_reacts_to_events.
 
 (* ---- witnesses ---- *)
-Definition ws_cfg : rcfg := mk_rcfg false [] system_modules [47; 119; 115].                  (* root "/ws" *)
+Definition ws_cfg : rcfg := mk_rcfg false [] system_modules [47; 119; 115] true.   (* root "/ws", repaired best match *)
 Definition f_ws_d_m : list N := [47;119;115;47;100;47;109;46;108;117;97].                    (* /ws/d/m.lua *)
 Definition f_ws_cur : list N := [47;119;115;47;99;46;108;117;97].                            (* /ws/c.lua *)
 Definition f_ws_m_test : list N := [47;119;115;47;109;46;116;101;115;116;46;108;117;97].     (* /ws/m.test.lua *)
@@ -208,7 +209,7 @@ Theorem C18_create_not_reanalysed_refuted :
   let s1 := pstep ws_cfg f_ws_main false s0 (Ins f_ws_a_b) in
   let fresh := pinit ws_cfg f_ws_main [f_ws_a_b_init; f_ws_main; f_ws_a_b] [f_ws_a_b_init; f_ws_main; f_ws_a_b] refs in
   map rs_vstr (ps_refs s1) = [[f_ws_a_b_init]] /\ map rs_vstr (ps_refs fresh) = [[f_ws_a_b]] /\
-  open_outcomes (ps_idx s1) (fun f => mem_bytes f (ps_loaded s1)) f_ws_main (open_list true false [97; 46; 98])
+  open_outcomes ws_cfg (ps_idx s1) (fun f => mem_bytes f (ps_loaded s1)) f_ws_main (open_list true false [97; 46; 98])
     = [Some ([97;47;98;46;108;117;97], f_ws_a_b)].
 Proof. cbv zeta. repeat split; vm_compute; reflexivity. Qed.
 Print Assumptions C18_create_not_reanalysed_refuted.
@@ -219,6 +220,43 @@ Theorem C18_dot_slash_refuted :
   let st := idx_run (map Ins [f_ws_cur; f_ws_d_m]) in
   let m := [46; 47; 100; 47; 109] in
   r_resolved (check_refer (fun _ => false) ws_cfg st f_ws_cur KRequire m) = [f_ws_d_m] /\
-  open_outcomes st (fun _ => true) f_ws_cur (open_list true false m) = [None].
+  open_outcomes ws_cfg st (fun _ => true) f_ws_cur (open_list true false m) = [None].
 Proof. cbv zeta. split; vm_compute; reflexivity. Qed.
 Print Assumptions C18_dot_slash_refuted.
+
+(* ---- after fixes/C09-deterministic-order.diff (order_fixed cfg = true): resolution is a function ---- *)
+
+(* every reference resolves to at most one file, whatever the index and the disk *)
+Theorem C18_resolution_single_fixed : forall disk cfg st cur k refer, order_fixed cfg = true ->
+  (length (r_resolved (check_refer disk cfg st cur k refer)) <= 1)%nat.
+Proof. exact check_refer_single. Qed.
+Print Assumptions C18_resolution_single_fixed.
+
+(* no history of create/delete events reaches the state "an earlier random choice among tied candidates decided the
+   control flow" (ps_ambig), and every reference keeps at most one resolved file *)
+Theorem C18_no_ambiguity_fixed : forall cfg cur fixed disk lua refs events, order_fixed cfg = true ->
+  let s := fold_left (pstep cfg cur fixed) events (pinit cfg cur disk lua refs) in
+  ps_ambig s = false /\ forall r, In r (ps_refs s) -> (length (rs_vstr r) <= 1)%nat.
+Proof. exact no_ambiguity_fixed. Qed.
+Print Assumptions C18_no_ambiguity_fixed.
+
+(* before the repair both failed: /ws/a/m.lua and /ws/b/m.lua for require("m") from /ws/c/x.lua are both possible
+   answers; and with /ws/a/d/m.lua, /ws/b/d/m.lua for require("d.m"), deleting one of them leaves the model not
+   knowing whether the referencing file is re-analysed (it is iff the deleted file happens to be the one chosen) *)
+Definition f_ws_a_m : list N := [47;119;115;47;97;47;109;46;108;117;97].
+Definition f_ws_c_x : list N := [47;119;115;47;99;47;120;46;108;117;97].
+Definition f_ws_a_d_m : list N := [47;119;115;47;97;47;100;47;109;46;108;117;97].
+Definition f_ws_b_d_m : list N := [47;119;115;47;98;47;100;47;109;46;108;117;97].
+Definition ws_cfg_prefix : rcfg := mk_rcfg false [] system_modules [47; 119; 115] false.
+Theorem C18_resolution_tie_prefix_refuted :
+  (let st := idx_run (map Ins [f_ws_a_m; f_ws_b_m; f_ws_c_x]) in
+   r_resolved (check_refer (fun _ => false) ws_cfg_prefix st f_ws_c_x KRequire [109]) = [f_ws_a_m; f_ws_b_m] /\
+   r_resolved (check_refer (fun _ => false) ws_cfg st f_ws_c_x KRequire [109]) = [f_ws_a_m]) /\
+  (let lua := [f_ws_a_d_m; f_ws_b_d_m; f_ws_c_x] in
+   let refs := [(KRequire, [100; 46; 109])] in
+   ps_ambig (pstep ws_cfg_prefix f_ws_c_x true (pinit ws_cfg_prefix f_ws_c_x lua lua refs) (Rem f_ws_b_d_m)) = true /\
+   ps_ambig (pstep ws_cfg f_ws_c_x true (pinit ws_cfg f_ws_c_x lua lua refs) (Rem f_ws_b_d_m)) = false /\
+   map rs_vstr (ps_refs (pstep ws_cfg f_ws_c_x true (pinit ws_cfg f_ws_c_x lua lua refs) (Rem f_ws_a_d_m)))
+     = [[f_ws_b_d_m]]).
+Proof. cbv zeta. repeat split; vm_compute; reflexivity. Qed.
+Print Assumptions C18_resolution_tie_prefix_refuted.
